@@ -19,7 +19,7 @@ def run(tier: str) -> int:
     r.rule = ("per population: every node of the default graph requested (a) alone, (b) in random target sets, (c) with "
               "all nodes; noise columns added; debug / check_minimal_specification varied; values compared bit-for-bit "
               "(same process, same inputs), row count, row order and exactly-the-targets contract. distinct = (population, target set).")
-    common.build_and_audit(r, ["C04", "T3"], leanchecker=not quick)
+    common.build_and_audit(r, ["C04", "C04Sim", "T3"], leanchecker=not quick)
     rnd = common.rng("C04")
     t3.run_t3(r, 1000 * common.seed() + 4, 40 if quick else 600)
     for date in (popgen.DATES_QUICK if quick else popgen.DATES_2015):
